@@ -43,7 +43,7 @@ CAPS = {".vtk": {"oriented": False}, ".hdf5": {"max_channels": 1}}
 DIRLINK = "lnk"  # symbolic link to the directory sub/deep
 SUBDIR = "sub"  # a second directory holding a file of the same base name: the same relative spelling from two working directories
 NEWDIR = "new/deeper"  # does not exist until the first write into it: writers create missing parent directories
-STEMS = ["s0", "s 1", "s%202", SUBDIR + "/s0", NEWDIR + "/s3"]  # plain, with a space, with a literal percent escape (all valid POSIX names; '#' and '?' are
+STEMS = ["s0", "s 1", "s%202", SUBDIR + "/s0", NEWDIR + "/s3", "s\u00e45"]  # plain, with a space, with a literal percent escape (all valid POSIX names; '#' and '?' are
 # not used: deepali's path -> URI -> urlsplit pipeline drops everything after them, see DESIGN.md section 4.3)
 DTYPES = ["uint8", "int16", "int32", "float32", "float64"]
 NATIVE_BYTES = (".mha",)
@@ -1165,7 +1165,7 @@ class IoEngine:
             if rng.chance(0.3):
                 weights[k] *= rng.choice([0.3, 2.0])
         return {"profile": profile or "C18", "tier": tier, "faults": faults, "suffix_on": suffix_on, "weights": weights,
-                "n_stems": rng.choice([1, 2, 3, 4, 4, 5, 5]), "length": rng.randint(6, 20 if tier == "quick" else 30)}
+                "n_stems": rng.choice([1, 2, 3, 4, 4, 5, 5, 6, 6]), "length": rng.randint(6, 20 if tier == "quick" else 30)}
 
     def new_world(self, scenario) -> World:
         return World(self, scenario)
